@@ -20,9 +20,10 @@ UNIT = Unit(
         Raw("impl<C: ContentAddrStore> Clone for SealedState<C> { #[verifier::external_body] fn clone(&self) -> (r: Self) ensures r == *self { unimplemented!() } }"),
         Fn(SS, "votes", impl="StakeSet", mode="assume", **ss_votes()),
         Fn(SS, "total_votes", impl="StakeSet", mode="assume", **ss_total_votes()),
-        Fn(S, "header", impl="SealedState", mode="assume", **st_header()),
+        Fn(S, "header", impl="SealedState", mode="assume", **st_header_full()),
         Fn(S, "confirm", impl="SealedState", home="C14", implicit_props=("C09", "C14"),
-           requires=[C("fits", "spec_staked_total(self.0.stakes@) <= u128::MAX", note="C09 envelope: total staked SYM fits in u128")],
+           requires=[C("fits", "spec_staked_total(self.0.stakes@) <= u128::MAX", note="C09 envelope: total staked SYM fits in u128"),
+                     C("inv", "chain_ok(self.0) && txs_keyed(self.0.transactions@)", note="invariants of a sealed state (preserved by apply_block: clause inv_next), needed to compute its header")],
            ensures=[
                C("sigs", "res is Some ==> forall|k: Ed25519PK| cproof@.contains_key(k) ==> sig_ok(k, spec_header_hash(spec_header(self.0)).0@, #[trigger] cproof@[k]@)", "C14"),
                C("supermajority", """(forall|k: Ed25519PK| cproof@.contains_key(k) ==> sig_ok(k, spec_header_hash(spec_header(self.0)).0@, #[trigger] cproof@[k]@))
@@ -40,6 +41,7 @@ UNIT = Unit(
            loops=[Loop(0, binder="it", body_entry="proof { done = done.insert(*k); assert(keyseq(it.seq())[it.index@ as int] == *k); assert(keyseq(it.seq()).contains(*k)); }", invariants=[
                C("enum", "is_enum(cproof@, keyseq(it.seq())) && (forall|i: int| 0 <= i < it.seq().len() ==> *(#[trigger] it.seq()[i]).1 == cproof@[*it.seq()[i].0])", "C14"),
                C("sigs_so_far", "forall|x: Ed25519PK| done.contains(x) ==> sig_ok(x, spec_header_hash(spec_header(self.0)).0@, #[trigger] cproof@[x]@)", "C14"),
+               C("hdr", "chain_ok(self.0) && txs_keyed(self.0.transactions@)", "C14"),
                C("rest", "forall|x: Ed25519PK| #[trigger] cproof@.contains_key(x) ==> (done.contains(x) || exists|j: int| it.index@ <= j < keyseq(it.seq()).len() && keyseq(it.seq())[j] == x)", "C14"),
            ])],
            closures=[Closure(0, "k: &Ed25519PK", "(r: u128)", ensures=[C("votes", "r as int == spec_votes(self.0.stakes@, my_epoch, Some(*k))", "C14")])],
